@@ -79,11 +79,11 @@ def Status.specCol : Status → Col
   | .single => .single | .mfj => .mfj | .mfs => .mfs | .hoh => .hoh | .qss => .mfj
 
 /-- A Python comparison operator. -/
-inductive Cmp where
+inductive BoundCmp where
   | lt | le | gt | ge
   deriving DecidableEq, Repr, Inhabited
 
-def Cmp.holds : Cmp → Rat → Rat → Bool
+def BoundCmp.holds : BoundCmp → Rat → Rat → Bool
   | .lt, a, b => decide (a < b)
   | .le, a, b => decide (a ≤ b)
   | .gt, a, b => decide (b < a)
@@ -92,15 +92,15 @@ def Cmp.holds : Cmp → Rat → Rat → Bool
 /-- The comparison operators and the switch point of the three functions, as found in the source. -/
 structure Cfg where
   /-- `if taxable_amount < 100000:` → table, else worksheet -/
-  switchCmp : Cmp
+  switchCmp : BoundCmp
   switchAt : Rat
   /-- `taxable_amount >= row[0] and taxable_amount < row[1]` -/
-  tblLo : Cmp
-  tblHi : Cmp
+  tblLo : BoundCmp
+  tblHi : BoundCmp
   /-- lower-bound test of the first worksheet row and of the later ones, upper-bound test -/
-  wsFirstLo : Cmp
-  wsRestLo : Cmp
-  wsHi : Cmp
+  wsFirstLo : BoundCmp
+  wsRestLo : BoundCmp
+  wsHi : BoundCmp
   deriving DecidableEq, Repr, Inhabited
 
 /-- The shape of the 2022 / 2023 code. -/
